@@ -70,6 +70,9 @@ func (n Num) String() string {
 type Schema struct {
 	Fields []FieldType
 	Str    bool
+	// Raw: the string follows without a terminator; the universe keeps its keys prefix-free itself
+	// (a preceding numeric field holds the length), as a length-prefixed user codec would.
+	Raw bool
 }
 
 func (s Schema) String() string {
@@ -79,6 +82,9 @@ func (s Schema) String() string {
 	}
 	if s.Str {
 		parts = append(parts, "str")
+	}
+	if s.Raw {
+		parts = append(parts, "raw")
 	}
 	return strings.Join(parts, ",")
 }
@@ -175,8 +181,13 @@ func (c SchemaCodec) Transform(t Tuple) ([]byte, []byte) {
 		b = append(b, t.S...)
 		b = append(b, 0)
 	}
-	b = b[:len(b):len(b)]
-	return b, b
+	if c.S.Raw {
+		b = append(b, t.S...)
+	}
+	// an exactly sized allocation (no slack from append growth behind the key)
+	out := make([]byte, len(b))
+	copy(out, b)
+	return out, out
 }
 
 func (c SchemaCodec) Restore(b []byte) Tuple {
@@ -189,6 +200,9 @@ func (c SchemaCodec) Restore(b []byte) Tuple {
 	}
 	if c.S.Str {
 		t.S = string(b[off : len(b)-1])
+	}
+	if c.S.Raw {
+		t.S = string(b[off:])
 	}
 	return t
 }
@@ -445,6 +459,26 @@ func CompoundRegistry(tier string) []UniverseDef {
 		free := []Tuple{mk(7, 0x0101010101010100, "x"), mk(7, 0x0101010101010101, "x"), mk(7, 0x0101010101010100, "y"), mk(7, 0x0101010101020100, ""), mk(7, 0x0101010101010100, "xq"), mk(8, 0, ""), mk(7, 0x0101010101010100, "")}
 		probes := []Tuple{mk(7, 0x0101010101010102, "x"), mk(7, 0x0101010101010000, "x"), mk(7, 0x0101010201010100, "x"), mk(6, 0, "")}
 		return NewCompoundUniverse("LONG", long, free, probes, 1)
+	}})
+	ustr := Schema{Fields: []FieldType{FU8}, Str: true}
+	ms := func(s string) Tuple { return Tuple{N: []Num{{T: FU8, U: 1}}, S: s} }
+	out = append(out, UniverseDef{Name: "compound[" + ustr.String() + "]/LONGSTR", Build: func() *Universe {
+		A := rep('a', 15)
+		free := []Tuple{ms(A + "b"), ms(A + "c"), ms(A[:9] + "z"), ms(A + "bq"), ms("x"), ms("")}
+		probes := []Tuple{ms(A[:14]), ms(A[:13]), ms(A), ms(A[:10]), ms(A + "d")}
+		return NewCompoundUniverse("LONGSTR", ustr, free, probes, 1)
+	}})
+	// length-prefixed names behind a 10-byte tenant id: keys of different lengths without any terminator; the
+	// length byte lies in the hidden part of the shared path, so a probe can differ from every stored key only there,
+	// follow an existing branch and run out inside (or exactly at the end of) a deeper path
+	lp := Schema{Fields: []FieldType{FU64, FU16, FU8}, Raw: true}
+	ml := func(s string) Tuple {
+		return Tuple{N: []Num{{T: FU64, U: 0x0101010101010101}, {T: FU16, U: 0x0101}, {T: FU8, U: uint64(len(s))}}, S: s}
+	}
+	out = append(out, UniverseDef{Name: "compound[" + lp.String() + "]/LENPFX", Build: func() *Universe {
+		free := []Tuple{ml("qlongtailAA1"), ml("qlongtailAA2"), ml("rxxxxxxxxxxx"), ml("q"), ml("qlongtailAB")}
+		probes := []Tuple{ml("ql"), ml("qlong"), ml("qlongtailA"), ml("qlongtailAA"), ml("qlongtailAA1x"), ml("r"), ml("")}
+		return NewCompoundUniverse("LENPFX", lp, free, probes, 1)
 	}})
 	out = append(out, UniverseDef{Name: "compound[" + long.String() + "]/VALS", Build: func() *Universe {
 		free := []Tuple{mk(7, 0x0101010101010100, "x"), mk(7, 0x0101010101010101, "x"), mk(7, 0x0101010101010100, "y"), mk(8, 0, ""), mk(7, 0x0101010101010100, "")}
